@@ -42,6 +42,9 @@ func runLinz(o Opts) *Result {
 	walkStrictE = false
 	ctx := context.Background()
 	for idx := 0; idx < o.N; idx++ {
+		if timeUp() {
+			break
+		}
 		if o.Only >= 0 && idx != o.Only {
 			continue
 		}
